@@ -46,6 +46,11 @@ def gen_exhaustive(c):
     for hist in itertools.product(range(len(U)), repeat=n):
         ops = [("F", U[k], 100 + i) for i, k in enumerate(hist)]
         out.append(("exhaustive/F^%d-universe8-init1" % n, "16d", 1, ops))
+    # every constructor argument 0..3 (1, 2, 4, 4 buckets): all FindOrInsert+Find histories of length 4 over 5 keys
+    for init in (0, 1, 2, 3):
+        for hist in itertools.product(range(5), repeat=4):
+            ops = [("F", U[k], 100 + i) for i, k in enumerate(hist)] + [("L", U[k]) for k in range(5)]
+            out.append(("exhaustive/F^4-universe5-init%d" % init, "16f", init, ops))
     # exhaustive mixed-operation histories over a 4-key universe, default table (8 buckets) pre-filled
     # to one below the threshold so that the history crosses the 8 -> 16 doubling
     U2 = [7, 15, 23, 31]                     # all at the last bucket of the 8-table: cluster wraps; 15/31 move, 7/23 stay in 16
@@ -134,7 +139,7 @@ def gen_random(c):
             else:
                 ops.append(("L", k + 1))
         mode = rng.choice(["16d", "12d"]) if n > 100 else rng.choice(["16f", "12f"])
-        init = rng.choice([None, None, 1, 2, 3, 20])
+        init = rng.choice([None, None, 0, 1, 2, 3, 20])
         out.append(("random/len<=%d" % (100 if n <= 100 else 1000 if n <= 1000 else 10000), mode, init, ops))
     # sequential and reverse-sequential keys (long single cluster), keys = multiples of a large power of two
     for B in (64, 256):
@@ -350,6 +355,9 @@ def main(argv):
     # Double on malloc'd and on mmap'd memory, key 0 an ordinary key; with and without a refused mremap
     for k in (0, 1):
         big.append("T 16 %d %d %d %d %d max" % (c.rng.randrange(1, 2 ** 62), nkeys, 22, c.rng.choice([0, 2]), k))
+    # markers that are non-zero but have zero low / high halves (KeyIsRawZero must look at every byte)
+    for inv in (1 << 32, 0xFFFFFFFF00000000, 1 << 63, 0xFF):
+        big.append("T 16 %d %d %d %d 0 %d" % (c.rng.randrange(1, 2 ** 62), 30000, 22, c.rng.choice([0, 2]), inv))
     # one giant cluster (all keys share the low bits of every table size): quadratic, so kept small
     big.append("T 16 %d %d %d %d" % (c.rng.randrange(1, 2 ** 62), 4000 if c.tier == "quick" else 20000, 22, 24))
     if c.violations:
@@ -358,7 +366,7 @@ def main(argv):
     big_out = run_lines_robust(impl, big, timeout=90 if c.tier == "quick" else 400, per_line_timeout=30 if c.tier == "quick" else 150, max_failures=1)
     for l, o in zip(big, big_out):
         f = l.split()
-        c.count(l, bucket="large/std::map-reference %s ops%s%s" % (f[3], " +mremap-refused" if len(f) == 8 and f[6] != "0" else "", " +marker~0" if len(f) == 8 and f[7] == "max" else ""))
+        c.count(l, bucket="large/std::map-reference %s ops%s%s" % (f[3], " +mremap-refused" if len(f) == 8 and f[6] != "0" else "", " +non-default-marker" if len(f) == 8 and f[7] != "0" else ""))
         if o.startswith("OK") and len(f) == 8 and f[6] != "0" and "refused=1" not in o and int(f[6]) <= 2:
             c.broken.append("mremap refusal #%s was not exercised by %r: %s" % (f[6], l, o))
         if o == "SKIPPED":
